@@ -2,6 +2,7 @@ package schema
 
 import (
 	"errors"
+	"fmt"
 	"io"
 )
 
@@ -250,9 +251,13 @@ func VerifC08Convert() {
 	for _, it := range items {
 		drop[it.v] = vsymBool("drop")
 	}
+	wrapped := vchoose("wrapped", 2) == 1 // the no-value mark may be wrapped by the convert function
 	conv := StreamReaderWithConvert(src, func(v int) (int, error) {
 		for _, it := range items {
 			if it.v == v && drop[it.v] {
+				if wrapped {
+					return 0, fmt.Errorf("nothing to forward for this item: %w", ErrNoValue)
+				}
 				return 0, ErrNoValue
 			}
 		}
@@ -500,4 +505,88 @@ func VerifC08MergeArrayPages() {
 	for i := range want {
 		vassert(batch[i] == want[i], "the caller's batch is not modified")
 	}
+}
+
+// a source whose conversion panics on one item, copied twice; one copy is merged with an ended stream, the other is
+// closed unread: the merged reader sees the items before the panic, the panic as an error item and the end; when it
+// is closed every reader derived from the source has been closed, so the writer is told on its next send
+func VerifC08MergePanicSource() {
+	vcfg("preempt", 1)
+	vcfg("selectfirst", 1)
+	sr, sw := Pipe[int](4)
+	at := 1 + vchoose("at", 2)
+	vals := []int{c08Val(), c08Val(), c08Val()}
+	for _, v := range vals {
+		sw.Send(v, nil)
+	}
+	conv := StreamReaderWithConvert(sr, func(v int) (int, error) {
+		if v == vals[at] {
+			panic("c08 convert panic")
+		}
+		return v, nil
+	})
+	cps := conv.Copy(2)
+	ended := StreamReaderFromArray([]int{})
+	merged := MergeStreamReaders([]*StreamReader[int]{cps[0], ended})
+	cps[1].Close()
+	got := 0
+	sawErr := false
+	for i := 0; i < 8; i++ {
+		v, err := merged.Recv()
+		if err == io.EOF {
+			break
+		}
+		if err != nil {
+			sawErr = true
+			break // the reader gives up at the failure and closes (whether the stream would go on is left open)
+		}
+		vassert(got < at && v == vals[got], "the merged stream delivers the items before the failing one, in order")
+		got++
+	}
+	merged.Close()
+	vquiesce()
+	vassert(sawErr && got == at, "the panic of the conversion surfaces as an error item after the items before it")
+	vassert(sw.Send(9, nil), "every reader derived from the source has been closed: the writer is told on its next send")
+}
+
+// the same failing source read through copies directly: the copy that hits the failing item first gets the panic (or
+// an error); the other copy must then see a failure at that position too — never an item that was not sent — and when
+// both copies are closed the source is closed
+func VerifC08CopyPanicSource() {
+	sr, sw := Pipe[int](4)
+	at := vchoose("at", 3)
+	vals := []int{c08Val(), c08Val(), c08Val()}
+	for _, v := range vals {
+		sw.Send(v, nil)
+	}
+	conv := StreamReaderWithConvert(sr, func(v int) (int, error) {
+		if v == vals[at] {
+			panic("c08 convert panic")
+		}
+		return v, nil
+	})
+	cps := conv.Copy(2)
+	recv := func(c *StreamReader[int]) (v int, err error, panicked bool) {
+		defer func() {
+			if r := recover(); r != nil {
+				panicked = true
+			}
+		}()
+		v, err = c.Recv()
+		return
+	}
+	first := vchoose("first", 2)
+	for _, k := range []int{first, 1 - first} {
+		for i := 0; i <= at; i++ {
+			v, err, p := recv(cps[k])
+			if i < at {
+				vassert(!p && err == nil && v == vals[i], "both copies deliver the items before the failing one, in order")
+			} else {
+				vassert(p || err != nil, "at the failing position every copy sees the failure (a panic or an error), never an item that was not sent")
+			}
+		}
+	}
+	cps[0].Close()
+	cps[1].Close()
+	vassert(sw.Send(9, nil), "when both copies are closed the source is closed and the writer is told on its next send")
 }
